@@ -22,6 +22,86 @@ def selected_versions(argv):
     return vs or [DEFAULT]
 
 
+SHORT = "234jan"
+
+
+def is_cluster(a):
+    """several short flags in one element, possibly ending in v and its attached value"""
+    if len(a) <= 2 or a[0] != "-" or a[1] == "-":
+        return False
+    body = a[1:]
+    j = 0
+    while j < len(body) and body[j] in SHORT:
+        j += 1
+    return j == len(body) or body[j] == "v"
+
+
+def expand(argv):
+    """POSIX spellings -> one flag per element: '-ja3' = -j -a -3, '-jvVEC' = -j --vector=VEC, '-v VEC' = --vector=VEC"""
+    out, i = [], 0
+    while i < len(argv):
+        a = argv[i]
+        if a in ("-v", "--vector") and i + 1 < len(argv):
+            out.append("--vector=" + argv[i + 1])
+            i += 2
+            continue
+        if is_cluster(a):
+            body = a[1:]
+            j = 0
+            while j < len(body) and body[j] in SHORT:
+                out.append("-" + body[j])
+                j += 1
+            if j < len(body):          # body[j] == "v"
+                rest = body[j + 1:]
+                if rest:
+                    out.append("--vector=" + rest)
+                elif i + 1 < len(argv):
+                    out.append("--vector=" + argv[i + 1])
+                    i += 1
+                else:
+                    out.append("-v")
+            i += 1
+            continue
+        out.append(a)
+        i += 1
+    return out
+
+
+def cluster(draw, argv):
+    """an equivalent POSIX spelling of the command line: short flags clustered, the -v value attached"""
+    from hypothesis import strategies as st
+    out, i = [], 0
+    while i < len(argv):
+        a = argv[i]
+        if len(a) == 2 and a[0] == "-" and a[1] in SHORT:
+            run = a[1]
+            i += 1
+            while i < len(argv) and len(argv[i]) == 2 and argv[i][0] == "-" and argv[i][1] in SHORT and draw(st.integers(0, 3)):
+                run += argv[i][1]
+                i += 1
+            if i + 1 < len(argv) and argv[i] == "-v" and draw(st.booleans()):
+                val = argv[i + 1]
+                if val and not val.startswith("=") and draw(st.booleans()):
+                    out.append("-" + run + "v" + val)
+                else:
+                    out += ["-" + run + "v", val]
+                i += 2
+            else:
+                out.append("-" + run)
+            continue
+        if a == "-v" and i + 1 < len(argv) and argv[i + 1] and not argv[i + 1].startswith("=") and draw(st.booleans()):
+            out.append("-v" + argv[i + 1])
+            i += 2
+            continue
+        if a in ("-v", "--vector") and i + 1 < len(argv):
+            out += [a, argv[i + 1]]
+            i += 2
+            continue
+        out.append(a)
+        i += 1
+    return out
+
+
 def vector_arg(argv):
     for i, a in enumerate(argv):
         if a.startswith("--vector="):
@@ -101,6 +181,7 @@ def compare_report(rep, out, want_json):
 
 def check_cli(inp):
     argv, stdin = inp["argv"], inp.get("stdin")
+    raw = argv
     if inp.get("subprocess"):
         r = cli.run_subprocess(argv, stdin, console_script=bool(inp.get("console_script")))
     else:
@@ -108,6 +189,7 @@ def check_cli(inp):
     fails = []
     if r["exc"] or r["status"] != 0 or "Traceback (most recent call last)" in r["err"] or "Traceback (most recent call last)" in r["out"]:
         return [failure("exit status 0, no traceback", {"status": r["status"], "exc": r["exc"], "stderr": r["err"][-300:]})]
+    argv = expand(argv)         # the model reads the command line one flag per element
     versions = selected_versions(argv)
     want_json = ("-j" in argv) or ("--json" in argv)
     allm = ("-a" in argv) or ("--all" in argv)
@@ -211,6 +293,10 @@ def case_strategy():
         if order_seed and not any(a in ("-v", "--vector") for a in argv):
             import random
             random.Random(order_seed).shuffle(argv)
+        if draw(st.integers(0, 2)) == 0:
+            argv2 = cluster(draw, argv)
+            if argv2 != argv and expand(argv2) == expand(argv):
+                argv = argv2
         return {"argv": argv, "stdin": stdin}, mode, len(flags)
     return s()
 
@@ -226,6 +312,8 @@ def hyp_part(n_examples, shard, n_sub):
     def t(c):
         inp, mode, nflags = c
         classes = ["mode:" + mode, "flags=%d" % min(nflags, 2)]
+        if any(is_cluster(a) for i, a in enumerate(inp["argv"]) if i == 0 or inp["argv"][i - 1] not in ("-v", "--vector")):
+            classes.append("clustered-short-flags")
         if "-j" in inp["argv"] or "--json" in inp["argv"]:
             classes.append("json")
         nt = ("json" in classes and mode == "valid") or mode in ("mutant", "other-version", "text", "argparse-special", "interactive-eof")
@@ -258,5 +346,5 @@ def run(tier, t0):
     return runner.finish(part, tier, t0, rule,
                          ["several version flags: the report of any selected version is accepted (precedence undefined by the statement)",
                           "an empty VECTOR is read as 'no vector'; layout/padding, banners and prompts are not asserted; ratings are required for v3/v4 (the CLI prints none for v2); a None v2 score line may be printed or omitted"],
-                         required=("mode:valid", "mode:other-version", "mode:mutant", "mode:text", "mode:argparse-special", "mode:interactive", "mode:interactive-eof",
+                         required=("clustered-short-flags", "mode:valid", "mode:other-version", "mode:mutant", "mode:text", "mode:argparse-special", "mode:interactive", "mode:interactive-eof",
                                    "flags=0", "flags=1", "flags=2", "json", "subprocess"))
